@@ -73,4 +73,16 @@ PROPS = {
         "and requires them equal; then both sides are compared. curl.hist: whole-sponge runs on top of the build's transform",
    assumptions=["instruction semantics of the Go-assembler subset as written in Iota/Model/AsmSem.lean", "the Go assembler/linker/CPU"],
    trusted_base=["Iota/Model/AsmSem.lean (207 lines) is the specification of the machine; it is exercised against the real CPU by the correspondence run"]),
+ "C11": P("C11", tie="Iota.Tie.Pow",
+   rule="ops: pow1.check (hook-exported checkStateTrits on planes built from 64 lanes with n-1/n/n+1/random trailing zeros, n = 0..243), pow.score (trailing zeros from the Lean BLAKE2b/b1t6/Curl-P pipeline; the float score is "
+        "compared inside the harness with math.Pow(3,z)/len), pow1.mono (monotonicity of the float score over z = 0..243 for each length used), pow.mined v1 (every nonce returned by Mine at targets exactly at / one ulp above / one ulp below "
+        "3^k/len, at 1/(2 len), 0, negative, denormal; 1..16 workers) re-scored",
+   assumptions=["IEEE-754: z -> math.Pow(3,z)/len is monotone (checked exhaustively per length at run time)", "iota.go curl/bct computes the lanes' Curl-P-81 hashes (external)"],
+   trusted_base=["float64 semantics are outside the model (abstract monotone score in the theorems)"]),
+ "C12": P("C12", tie="Iota.Tie.Pow",
+   rule="ops: pow2.toint, pow2.suff (sufficientTrailingZeros and targetHash incl. the overflow guard), pow2.check (hook-exported checkStateTrits on constructed planes: lanes whose hash integer is exactly the target hash, "
+        "one above, one below, the largest with s / s-1 trailing zeros, random with >= s-1 zeros, random; at lane 0, 63, random; all-fail and all-candidate planes; sprinkled invalid (0,0) encodings), pow2.statetoint, pow.score, "
+        "pow.mined v2 (nonces returned by Mine with 1..16 workers re-scored by the Lean pipeline), pow2.nopassover (single worker: every earlier nonce re-scored)",
+   assumptions=["iota.go curl/bct computes the lanes' Curl-P-81 hashes (external)", "len(data)+8 times target fits 64 bits (the property's quantifier)"],
+   trusted_base=["Lean BLAKE2b-256 / b1t6 / Curl-P-81 pipeline in the driver", "math/big modelled on Nat"]),
 }
